@@ -20,6 +20,8 @@ struct Codec {
     is_token: bool,
     /// Some((display, serde_json string)) when `s` parses
     parse: Box<dyn Fn(&str) -> Option<(String, String)>>,
+    /// Display of the value obtained through the serde Deserialize impl from the JSON string `s`
+    serde_parse: Box<dyn Fn(&str) -> Option<String>>,
     /// semantic condition on the decoded body beyond base64 syntax
     extra: Box<dyn Fn(&[u8]) -> bool>,
     /// serialisation of raw bytes through the type's own constructor, when it has one
@@ -70,6 +72,7 @@ fn codecs<B: Backend>() -> Vec<Codec> {
                     }
                     Some((d, j))
                 }),
+                serde_parse: Box::new(|s: &str| serde_json::from_value::<$ty>(serde_json::Value::String(s.to_string())).ok().map(|x| x.to_string())),
                 extra: Box::new($extra),
                 from_raw: $raw,
                 footer_ok: Box::new(|_: &[u8]| true),
@@ -97,6 +100,9 @@ fn codecs<B: Backend>() -> Vec<Codec> {
         // canonical encoding would be
         Codec { footer_ok: Box::new(|f: &[u8]| !f.is_empty() && serde_json::from_slice::<serde_json::Value>(f).is_ok()), ..codec!("EncryptedToken<JsonFooter>", format!("v{v}.local."), EncryptedToken<B, Raw, paseto_json::Json<serde_json::Value>>, true, any, None) },
         Codec { footer_ok: Box::new(|f: &[u8]| !f.is_empty() && serde_json::from_slice::<serde_json::Value>(f).is_ok()), ..codec!("SignedToken<JsonFooter>", format!("v{v}.public."), SignedToken<B, Raw, paseto_json::Json<serde_json::Value>>, true, any, None) },
+        // a payload encoding with a suffix: the suffix is part of the header and not optional
+        codec!("EncryptedToken<RawX>", format!("v{v}x.local."), EncryptedToken<B, RawX, Vec<u8>>, true, any, None),
+        codec!("SignedToken<RawX>", format!("v{v}x.public."), SignedToken<B, RawX, Vec<u8>>, true, any, None),
         codec!("EncryptedToken<LossyFooter>", format!("v{v}.local."), EncryptedToken<B, Raw, crate::monitors::c02::LossyFooter>, true, any, None),
         codec!("SignedToken<LossyFooter>", format!("v{v}.public."), SignedToken<B, Raw, crate::monitors::c02::LossyFooter>, true, any, None),
     ]
@@ -143,6 +149,12 @@ fn check(rep: &mut Report, c: &Codec, class: &str, s: &str, seen: &mut Option<&m
     let detail = |what: &str| json!({"type": c.name, "class": class, "input": s.chars().take(300).collect::<String>(), "input_hex": hx_short(s.as_bytes()), "what": what});
     rep.case(&label, fnv_parts(&[c.name.as_bytes(), s.as_bytes()]), true);
     let sigbase = format!("C09|{}", c.name);
+    // both entry points accept exactly the same strings, with the same meaning
+    if let (Ok(f), Ok(d)) = (&got, guard(|| (c.serde_parse)(s))) {
+        if f.as_ref().map(|(disp, _)| disp) != d.as_ref() {
+            rep.violation(&format!("{sigbase}|serde-and-fromstr-disagree:{}", if d.is_some() { "serde-accepts" } else { "serde-rejects" }), detail(&format!("FromStr: {:?}, Deserialize: {:?}", f.as_ref().map(|(x, _)| x.chars().take(80).collect::<String>()), d.as_ref().map(|x| x.chars().take(80).collect::<String>()))));
+        }
+    }
     match (got, want) {
         (Err(pn), _) => rep.violation(&format!("{sigbase}|panic"), detail(&pn)),
         (Ok(None), None) => rep.count("rejected-as-required"),
@@ -315,6 +327,10 @@ fn backend<B: Backend>(opts: &Opts, rep: &mut Report) {
                 (format!("{h}{b}\0"), "non-alphabet"),
                 (format!("{h}{b}~"), "non-alphabet"),
                 (format!("{h}{b}%3D"), "non-alphabet"),
+                // the header with the payload-encoding suffix dropped / added / doubled
+                (format!("{}{b}", h.replacen("x.", ".", 1)), "header"),
+                (format!("{}{b}", h.replacen('.', "x.", 1)), "header"),
+                (format!("{}{b}", h.replacen('.', "xx.", 1)), "header"),
                 (String::new(), "empty"),
                 (h.to_string(), "header-only"),
             ];
@@ -432,7 +448,7 @@ pub fn run(opts: &Opts) {
     for_backends!(opts, backend, opts, &mut rep);
     rep.set(
         "rule",
-        json!("per FromStr/Display pair (KeyText x5, KeyId x3, PieWrappedKey x2, PasswordWrappedKey x2, SealedKey, EncryptedToken, SignedToken) and backend: all 64^2 + 64^3 final blocks over the base64url alphabet (exhaustive on KeyText<Local>, KeyId<Local> and one token type in quick, on every type in thorough; sampled otherwise), all one-character tails, every position x every byte 0..0x7f and multibyte UTF-8, every prefix length of 8 blocks, padding / '+' '/' / whitespace / extra segments / header variants, tokens with 0..3 dots, tokens of typed footer types (Json<Value>, a lossy footer type) whose footer is spelled non-canonically, over-long strings whose tail repeats parts of the string itself, every byte string of length 0..300 through from_raw_bytes, random hostile strings; acceptance must equal the independent strict codec's verdict, accepted strings must re-serialise identically (tokens: modulo one trailing dot), serde form must equal Display and deserialize back through six deserializer paths (from_str, from_value, from_reader, escaped JSON string, serde's String/Str/BorrowedStr value deserializers); distinct = distinct (type, string). Inputs are valid UTF-8 only (FromStr takes &str)"),
+        json!("per FromStr/Display pair (KeyText x5, KeyId x3, PieWrappedKey x2, PasswordWrappedKey x2, SealedKey, EncryptedToken, SignedToken) and backend: all 64^2 + 64^3 final blocks over the base64url alphabet (exhaustive on KeyText<Local>, KeyId<Local> and one token type in quick, on every type in thorough; sampled otherwise), all one-character tails, every position x every byte 0..0x7f and multibyte UTF-8, every prefix length of 8 blocks, padding / '+' '/' / whitespace / extra segments / header variants, tokens with 0..3 dots, tokens of typed footer types (Json<Value>, a lossy footer type) whose footer is spelled non-canonically, over-long strings whose tail repeats parts of the string itself, every byte string of length 0..300 through from_raw_bytes, random hostile strings; acceptance must equal the independent strict codec's verdict, accepted strings must re-serialise identically (tokens: modulo one trailing dot), FromStr and Deserialize must accept exactly the same strings; serde form must equal Display and deserialize back through six deserializer paths (from_str, from_value, from_reader, escaped JSON string, serde's String/Str/BorrowedStr value deserializers); distinct = distinct (type, string). Inputs are valid UTF-8 only (FromStr takes &str)"),
     );
     rep.finish(opts);
 }
